@@ -154,9 +154,9 @@ fn twin(name: &str, seed: u64, budget: u64) -> i32 {
     match name {
         "is_excluded" => twins::is_excluded(seed, budget),
         "cli_chain" => cli_w::search("cli", seed, true),
-        "serve_sessions" => serve_w::search("serve", true),
+        "serve_sessions" => serve_w::search_t("serve", true, seed, budget),
         "oneway_crashes" => oneway_w::search(true, budget > 60),
-        "bisync_histories" => bisync_w::search("bisync", true),
+        "bisync_histories" => bisync_w::search_t("bisync", true, seed, budget),
         "signature_generate" => engine_w::twin_signature_generate(seed, budget),
         "signature_structure" => engine_w::twin_signature_structure(seed, budget),
         "signature_table" => engine_w::twin_signature_table(seed, budget),
